@@ -85,7 +85,8 @@ def _replay_get_sys_path(inp):
                                                 add_init_paths=inp.get('add_init_paths', True)))
     finally:
         pm.discover_buildout_paths = old
-    env = {'self': pr, 'inference_state': st, 'add_parent_paths': True, 'add_init_paths': True, 'Path': Path}
+    env = {'self': pr, 'inference_state': st, 'add_parent_paths': True, 'add_init_paths': True, 'Path': Path,
+           'ADDED_BEFORE': list(inp['added']), 'SYS_PATH_BEFORE': None if inp['sys_path'] is None else list(inp['sys_path'])}
     return env, out
 
 
@@ -134,6 +135,10 @@ _get_sys_path = Contract(
         'inference_state.environment.get_sys_path()) or x in self.added_sys_path or self._path in Path(x).parents '
         'for x in result)',
         'len(set(result)) == len(result)',
+        # computing the effective path changes nothing in the project's configuration (a second Script with the same
+        # Project gets the same path)
+        'list(self.added_sys_path) == ADDED_BEFORE',
+        '(None if self._sys_path is None else list(self._sys_path)) == SYS_PATH_BEFORE',
     ],
 )
 
